@@ -194,7 +194,10 @@ def run_batch(mod, tier, master, nruns, workers, chunk, wall_budget, hang_s=300)
                         abort = True
                         break
                 except cf.TimeoutError:
-                    agg.harness_errors.append((None, f"wall budget of {wall_budget}s exhausted"))
+                    # the batch is as deep as its wall budget allows: what has been gathered
+                    # (in index order) stands, the rest is not run
+                    agg.truncated_at = len(results)
+                    abort = True
                     break
                 except cf.process.BrokenProcessPool as e:
                     agg.harness_errors.append((None, f"worker died: {e!r}"))
@@ -211,6 +214,9 @@ def run_batch(mod, tier, master, nruns, workers, chunk, wall_budget, hang_s=300)
         r = results[i]
         digests[i] = r.get("digest")
         agg.add(r)
+    if getattr(agg, "truncated_at", None) is not None:
+        agg.probes["runs_not_executed_wall_budget_reached"] = nruns - len(results)
+        print(f"[{getattr(mod, 'ID', '?')}] wall budget of {wall_budget}s reached after {len(results)} of {nruns} runs; the rest was not run", flush=True)
     return agg, digests, time.time() - t0
 
 
